@@ -6,6 +6,7 @@ import (
 	"reflect"
 
 	"github.com/mlange-42/arche/ecs"
+	"github.com/mlange-42/arche/generic"
 	"verifharness/wx"
 )
 
@@ -66,6 +67,11 @@ func (p *PairCfg) New() wx.Run {
 	r := &PairRun{cfg: p, a: NewRun(p.Base)}
 	if !p.Load {
 		r.resID = ecs.AddResource(&r.a.w, &pairRes{V: 42})
+		g := generic.NewResource[pairRes](&r.a.w)
+		if g.Get() == nil {
+			panic("harness: resource not found")
+		}
+		r.gres = &g
 	}
 	return r
 }
@@ -77,6 +83,7 @@ type PairRun struct {
 	cfg     *PairCfg
 	a, b    *Run
 	resID   ecs.ResID
+	gres    *generic.Resource[pairRes] // created and used before any Reset
 	outcome string
 	dead    bool
 	// handleOrderFree: a batch removal over several entities has recycled IDs in table iteration order, which the
@@ -262,6 +269,18 @@ func (r *PairRun) applyReset() wx.Result {
 	}
 	if w.Resources().Has(r.resID) || w.Resources().Get(r.resID) != nil {
 		return r.fail("reset:resource-kept", "a resource is still present after Reset")
+	}
+	{
+		// a generic mapper that was created and used before the reset sees no resource either
+		gm := r.gres
+		if gm == nil {
+			g := generic.NewResource[pairRes](w)
+			gm = &g
+			r.gres = gm
+		}
+		if gm.Has() || gm.Get() != nil {
+			return r.fail("reset:resource-kept-generic", "a generic.Resource mapper created before the Reset still reports the resource afterwards")
+		}
 	}
 	if id := ecs.ResourceID[pairRes](w); id != r.resID {
 		return r.fail("reset:resource-id", "resource ID changed by Reset")
